@@ -326,7 +326,7 @@ class RepeatCase:
         if self.base_mode == "first":
             lines.append(f".link {oct(self.base)[2:]}")
         lines += self.defs(self.before)
-        lines.append("start:")
+        lines.append("bgn:")
         for i in range(self.npre):
             lines.append(f".word {oct(0o1111 * (i + 1))[2:]}")
         lines += middle
@@ -462,7 +462,8 @@ def parse_repeat(text):
     """the (count token, body CodeBlock) of the single top-level '.repeat' of a program text"""
     m = impl.load()
     T = m["types"]
-    f = m["parser"].parse("t.mac", text)
+    with m["reports"].handle_reports(lambda *a: None):
+        f = m["parser"].parse("t.mac", text)
     reps = [i for i in f.body.insns if isinstance(i, T.Instruction) and i.name.name.lower() == ".repeat"]
     if len(reps) != 1:
         raise Unsupported("no single top-level repeat")
@@ -486,5 +487,5 @@ def env_coq(consts, start):
     t = "None"
     for n, v in sorted(consts.items()):
         t = "if String.eqb n %s then Some %s else %s" % (C.coq_str(n), C.zlit(v), t)
-    t = "if String.eqb n \"start\" then Some %s else %s" % (C.zlit(start), t)
+    t = "if String.eqb n \"bgn\" then Some %s else %s" % (C.zlit(start), t)
     return "(fun n : string => %s)" % t
